@@ -173,9 +173,15 @@ func OpenBucket(urlStr string, bucketName string, mode OpenMode) (b *Bucket, err
 		serial:          serial,
 	}
 	bucket.expManager = newExpirationManager(bucket.doExpiration)
+	isNew := false // true once the database is known not to have existed before this call
 	defer func() {
 		if err != nil {
-			_ = bucket.CloseAndDelete(ctx)
+			if isNew {
+				_ = bucket.CloseAndDelete(ctx)
+			} else {
+				// A failure to open an existing bucket must not delete its data:
+				bucket.closeWithoutDeleting()
+			}
 		}
 	}()
 
@@ -186,6 +192,7 @@ func OpenBucket(urlStr string, bucketName string, mode OpenMode) (b *Bucket, err
 		return nil, err
 	}
 	if vers == 0 {
+		isNew = true
 		if err = bucket.initializeSchema(bucketName); err != nil {
 			return nil, err
 		}
